@@ -258,7 +258,7 @@ func (ex *Exec) solveOne(o *Obligation, dir string, id string, timeoutS int, tho
 	}
 	// stage 0: the string-abstracted query, when there is one, is usually decided at once
 	if abstractScript != "" && !o.Cover {
-		st0, out0, _ := runSolver(context.Background(), solvers[0], abstractScript, dir, id+"a0", 2)
+		st0, out0, _ := runSolver(context.Background(), solvers[0], abstractScript, dir, id+"a0", 4)
 		res.Outputs["z3-new(str-abstract)"] = trimOut(out0)
 		if st0 == "unsat" {
 			res.Status, res.Solver, res.Seconds = "unsat", "z3-new(str-abstract)", time.Since(t0).Seconds()
@@ -365,12 +365,47 @@ func trimOut(s string) string {
 
 // modelFor re-runs a failed obligation asking for a model.
 func (ex *Exec) modelFor(o *Obligation, dir, id string, timeoutS int) (string, string) {
-	script := ex.script(o, true)
-	for _, sp := range solvers {
-		st, out, _ := runSolver(context.Background(), sp, script, dir, id+".m", timeoutS)
-		if st == "sat" {
-			return sp.name, out
+	// a solver that refuted the obligation is asked again for its model
+	if o.Result.Status == "sat" {
+		script := ex.script(o, true)
+		for _, sp := range solvers {
+			if sp.name != o.Result.Solver && o.Result.Solver != "" {
+				continue
+			}
+			st, out, _ := runSolver(context.Background(), sp, script, dir, id+".m", timeoutS)
+			if st == "sat" {
+				return sp.name, out
+			}
 		}
+		for _, sp := range solvers {
+			st, out, _ := runSolver(context.Background(), sp, script, dir, id+".m", timeoutS)
+			if st == "sat" {
+				return sp.name, out
+			}
+		}
+		return "", ""
+	}
+	// undecided (quantifiers): a candidate input from the quantifier-free part of the query. It may violate a
+	// dropped assumption; it is only ever reported when the replay on the real code confirms it.
+	relaxed := *o
+	relaxed.Lines = nil
+	for _, l := range o.Lines {
+		if !strings.Contains(l, "(forall ") && !strings.Contains(l, "(exists ") {
+			relaxed.Lines = append(relaxed.Lines, l)
+		}
+	}
+	if strings.Contains(o.Goal.S, "(forall ") && !strings.HasPrefix(o.Goal.S, "(forall ") {
+		return "", ""
+	}
+	var rl []string
+	for _, l := range strings.Split(ex.script(&relaxed, true), "\n") {
+		if !strings.Contains(l, "(forall ") || strings.HasPrefix(l, "(assert (not ") {
+			rl = append(rl, l)
+		}
+	}
+	st, out, _ := runSolver(context.Background(), solvers[0], strings.Join(rl, "\n"), dir, id+".mr", 5)
+	if st == "sat" {
+		return solvers[0].name + "(quantifier-free candidate)", out
 	}
 	return "", ""
 }
